@@ -233,7 +233,7 @@ def run_check(prop, tier, seed):
     prog, mir_wall = load_dlib_program()
     um = UpdaterModel(prog)
     drift = z3.Int('drift')
-    H = 3 if tier == 'quick' else 4
+    H = 4 if tier == 'quick' else 6
     pr = Prover(seed)
     rp = common.Replay('debug'); rp2 = common.Replay('release')
     stats = [0, 0]
